@@ -135,9 +135,13 @@ Definition case_model_ok (c : vcase) : bool :=
           (combine (c_queries c) (c_observed c)).
 
 (* spec evaluated on what the implementation returned; only claimed for well-formed records *)
+Definition decl_is_affected (vuln : list affected) (q : query) : bool :=
+  q_known q && existsb (fun a => affected_matches osv_decl a q) vuln.
+
 Definition case_spec_ok (c : vcase) : bool :=
   negb (wf_vuln (c_vuln c)) ||
-  forallb (fun qo => Bool.eqb (osv_is_affected (c_vuln c) (fst qo)) (snd qo))
+  forallb (fun qo => Bool.eqb (osv_is_affected (c_vuln c) (fst qo)) (snd qo) &&
+                     Bool.eqb (decl_is_affected (c_vuln c) (fst qo)) (snd qo))
           (combine (c_queries c) (c_observed c)).
 
 Fixpoint bad_indices {A} (f : A -> bool) (l : list A) (i : nat) : list nat :=
